@@ -183,6 +183,35 @@ end program geo_alias
   wv = mi
 end subroutine alias_two
 """,
+    "kn_kinds.f90": """module kn_kinds
+  implicit none
+  integer, parameter :: k_sp = 4, k_dp = 8, k_long = 16
+end module kn_kinds
+""",
+    "kn_utils.f90": """module kn_utils
+  use kn_kinds, only: k_dp
+  implicit none
+contains
+  subroutine u_help()
+  end subroutine u_help
+end module kn_utils
+""",
+    "kn_main.f90": """program kn_main
+  use kn_utils, only: u_help
+  implicit none
+  integer :: j
+  j = k_
+  call u_
+end program kn_main
+""",
+    "kn_main2.f90": """subroutine kn_main2()
+  use kn_utils, only: u_help
+  use kn_kinds, only: k_sp
+  implicit none
+  integer :: j
+  j = k_
+end subroutine kn_main2
+""",
     "geo_main.f90": """program geo_main
   use geo_poly, only: poly_t, poly_reset
   use geo_base, only: s
@@ -219,6 +248,14 @@ CATALOGUE_CASES = [
     ("PUBLIC list written in another case", "geo_alias2.f90", 5, 9, None, {"mixed_name"}, set()),
     ("derived type in an executable statement", "geo_alias.f90", 7, 9, None, {"shape_t"}, set()),
     ("CALL on an object: bound procedures", "geo_main.f90", 11, 10, None, {"describe", "perimeter"}, {"plain_var", "poly_reset"}),
+    ("ONLY lists on two USE levels with nothing in common", "kn_main.f90", 4, 8, None, set(), {"k_dp", "k_sp", "k_long"}),
+    ("ONLY list names the used module's own procedure", "kn_main.f90", 5, 9, None, {"u_help"}, set()),
+    ("disjoint ONLY lists plus a direct USE ONLY of the inner module", "kn_main2.f90", 5, 8, None, {"k_sp"}, {"k_dp", "k_long"}),
+]
+# after the root type of the four-level chain (geo_base.f90) gained a component and was saved: (what, file, line, character, present)
+AFTER_SAVE_CASES = [
+    ("member four levels deep after the root type was saved with a new component", "geo_rect.f90", 17, 7, {"colour", "id", "width", "nsides"}),
+    ("member two levels deep after the root type was saved with a new component", "geo_main.f90", 8, 5, {"colour", "id", "nsides"}),
 ]
 
 
@@ -241,6 +278,20 @@ def check_catalogue(ctx):
                 ctx.report("C12:derived-types-not-offered" if what.startswith("derived type") else "C12:context-" + what.replace(":", "").replace(" ", "-")[:40], "%s: misses %s, offers %s" % (what, missing, extra),
                            {"kind": "counterexample", "input": {"files": CATALOGUE_FILES, "file": fn, "line": line, "character": ch}, "implementation": sorted(got)[:60],
                             "oracle": {"present": sorted(present), "absent": sorted(absent)}})
+        # a saved edit of the file that holds the root of the EXTENDS chain: inherited members are rebuilt all the way down
+        base = os.path.join(root, "geo_base.f90")
+        new_text = CATALOGUE_FILES["geo_base.f90"].replace("    integer :: id\n", "    integer :: id\n    integer :: colour\n", 1)
+        with open(base, "w") as f:
+            f.write(new_text)
+        impl.did_save(srv, base)
+        for (what, fn, line, ch, present) in AFTER_SAVE_CASES:
+            labs, raw = labels_at(srv, conn, os.path.join(root, fn), line, ch)
+            got = {l.lower() for l, _ in (labs or [])}
+            ctx.count(("catalogue", what), True)
+            if labs is None or present - got:
+                ctx.report("C12:stale-members-after-save", "%s: misses %s" % (what, sorted(present - got)),
+                           {"kind": "counterexample", "input": {"files": CATALOGUE_FILES, "saved": {"geo_base.f90": new_text}, "file": fn, "line": line, "character": ch},
+                            "implementation": sorted(got)[:60], "oracle": {"present": sorted(present)}})
     finally:
         shutil.rmtree(root, ignore_errors=True)
 
